@@ -257,3 +257,42 @@ func tarfsFacts(lf *leanFile) {
 	}
 	lf.def("tarfsBlockSize", "Nat", bs)
 }
+
+// compactFacts: the assignments and the result of the two in-place compaction loops.
+func compactFacts(lf *leanFile) {
+	var rows []string
+	for _, fn := range [][3]string{{"copy.go", "", "removeForeignLayers"}, {"registry/remote/referrers.go", "", "filterReferrers"}} {
+		fd := funcDecl(fn[0], fn[1], fn[2])
+		var steps []string
+		if fd == nil {
+			miss(fn[0] + ":" + fn[2])
+		} else {
+			ast.Inspect(fd.Body, func(n ast.Node) bool {
+				switch x := n.(type) {
+				case *ast.RangeStmt:
+					ast.Inspect(x.Body, func(m ast.Node) bool {
+						switch y := m.(type) {
+						case *ast.AssignStmt:
+							if len(y.Lhs) == 1 && len(y.Rhs) == 1 {
+								steps = append(steps, exprString(y.Lhs[0])+" "+y.Tok.String()+" "+exprString(y.Rhs[0]))
+							}
+						case *ast.IncDecStmt:
+							steps = append(steps, exprString(y.X)+y.Tok.String())
+						}
+						return true
+					})
+					return false
+				case *ast.ReturnStmt:
+					if len(x.Results) == 1 {
+						if se, ok := x.Results[0].(*ast.SliceExpr); ok && se.High != nil && se.Low == nil {
+							steps = append(steps, exprString(se.X)+"[:"+exprString(se.High)+"]")
+						}
+					}
+				}
+				return true
+			})
+		}
+		rows = append(rows, fmt.Sprintf("(%s, %s)", leanStr(fn[2]), leanStrList(steps)))
+	}
+	lf.def("compactLoops", "List (String × List String)", "["+strings.Join(rows, ",\n   ")+"]")
+}
